@@ -643,7 +643,12 @@ def _whichsize_one(world, res, f_budget, var, name, field, arity, spec_sizes, se
     res.add(ob)
 
 
-FAMILIES = {"costfn": costfn_family, "steps": steps_family, "whichsize": whichsize_family}
+def _sizes_family(world, res, tier, kf):
+    from props import c05_sizes
+    c05_sizes.sizes_family(world, res, tier, kf)
+
+
+FAMILIES = {"costfn": costfn_family, "steps": steps_family, "whichsize": whichsize_family, "sizes": _sizes_family}
 
 
 def run(tier: str, seed: int, only=None) -> Result:
